@@ -498,7 +498,7 @@ func runC06(w *W) {
 		w.Count("differs:" + class)
 		w.Report(Finding{Kind: "script", Key: "script@" + class + "@" + strings.SplitN(desc, ":", 2)[0], Input: fmt.Sprintf("%q", trunc(text, 1500)), InputHex: hexs(in), Detail: trunc(detail, 1500)})
 	}
-	nLong := w.pickN(32, 400)
+	nLong := w.pickN(48, 400)
 	for k := 0; k < nLong; k++ {
 		idx, mine := w.Case()
 		if !mine {
@@ -506,16 +506,33 @@ func runC06(w *W) {
 		}
 		r := NewRng(w.Seed, uint64(idx), 61)
 		var kinds []*piece
-		for len(kinds) < 2+r.Intn(5) {
-			kinds = append(kinds, pp.pickPiece(r, 120))
-		}
-		// always have statements with parenthesised subqueries / nested parentheses among them
-		for _, t := range []string{"SELECT (SELECT 1) AS a", "SELECT * FROM (SELECT 1)", "SELECT ((1))", "WITH x AS (SELECT 1) SELECT * FROM x", "SELECT a IN (SELECT 1)"} {
-			if r.Chance(1, 2) {
-				if pc := pp.qualify(t, "special"); pc != nil {
+		nested := []string{"SELECT (SELECT 1) AS a", "SELECT * FROM (SELECT 1)", "SELECT ((1))", "WITH x AS (SELECT 1) SELECT * FROM x", "SELECT a IN (SELECT 1)", "SELECT (WITH 1 AS y SELECT y)",
+			"SELECT [1, (2)], (1, (2, 3)), f(g(h(1)))", "SELECT CASE WHEN a THEN (SELECT 1) END", "SELECT EXISTS (SELECT 1)", "SELECT x -> (x + 1)", "CREATE VIEW v AS SELECT (SELECT 1)", "SELECT 'a;b' -- c;\n"}
+		switch {
+		case k < 2*len(nested):
+			// one nested shape repeated (every second script alternates it with a plain statement)
+			if pc := pp.qualify(nested[k%len(nested)], "special"); pc != nil {
+				kinds = append(kinds, pc)
+			}
+			if k >= len(nested) {
+				if pc := pp.qualify("SELECT 1", "special"); pc != nil {
 					kinds = append(kinds, pc)
 				}
 			}
+		default:
+			for len(kinds) < 1+r.Intn(4) {
+				kinds = append(kinds, pp.pickPiece(r, 120))
+			}
+			for _, t := range nested {
+				if r.Chance(1, 4) {
+					if pc := pp.qualify(t, "special"); pc != nil {
+						kinds = append(kinds, pc)
+					}
+				}
+			}
+		}
+		if len(kinds) == 0 {
+			continue
 		}
 		cnt := 1100 + r.Intn(1500)
 		pieces := make([]*piece, cnt)
